@@ -107,6 +107,13 @@ def createSteps (envC : NsEnv) : PTree → Nat → XNode → List Step → Excep
     | .ok [c] => createSteps envC root nextId c rest
     | .ok _ => .error .ambiguous
 
+/-- the prefixes `fetch_or_create_by_xpath` looks up before it creates anything: the one of the name test and
+    those of the derived attributes (`if prefix and prefix not in namespaces`) -/
+def unboundPrefixes (envC : NsEnv) (s : Step) : List Str :=
+  ((match s.test with
+    | .name (some p) _ => [p]
+    | _ => []) ++ (stepAttrs s).map (·.1)).filter (fun p => !p.isEmpty && (Ser.dget envC (showS p)).isNone)
+
 /-- `fetch_or_create_by_xpath(expression, namespaces)` on the node at `ctx` -/
 def fetchOrCreate (root : PTree) (nextId : Nat) (envQ envC : NsEnv) (ctx : List Nat) (x : XExpr) :
     Except CreateErr (PTree × XNode × Nat) :=
@@ -118,7 +125,11 @@ def fetchOrCreate (root : PTree) (nextId : Nat) (envQ envC : NsEnv) (ctx : List 
     | .ok (_ :: _ :: _) => .error .ambiguous
     | .ok [] =>
       match x with
-      | [p] => createSteps envC root nextId (if p.absolute then .doc else .at ctx) p.steps
+      | [p] =>
+        -- an unknown prefix is reported before any node is created
+        match p.steps.flatMap (unboundPrefixes envC) with
+        | q :: _ => .error (.eval (.unknownPrefix (showS q)))
+        | [] => createSteps envC root nextId (if p.absolute then .doc else .at ctx) p.steps
       | _ => .error .valueError
 
 end Delb.XPath
